@@ -446,6 +446,22 @@ func c10Run(ctx *Ctx, c c10Case) {
 			out := e.eval(src)
 			if out.failed() || !sameList(out.Coll, want) {
 				e.fail("where: not the order-preserving sub-collection of passing items ["+c.Crit+"]", src, out, renderItems(want))
+				return
+			}
+			// the passing and the failing items partition c — evaluated by the library in one program,
+			// so that c is referenced twice
+			allDecided := true
+			for _, it := range e.items {
+				if t := cr.Truth(it); t != "T" && t != "F" {
+					allDecided = false
+				}
+			}
+			if allDecided {
+				src2 := c.Base + ".where(" + cr.Expr + ").count() + " + c.Base + ".where((" + cr.Expr + ").not()).count()"
+				out2 := e.eval(src2)
+				if out2.failed() || renderColl(out2.Coll) != fmt.Sprintf("[Integer:%d]", n) {
+					e.fail("where(p) and where(p.not()) do not partition c", src2, out2, fmt.Sprint(n))
+				}
 			}
 		case "exists":
 			src := c.Base + ".exists(" + cr.Expr + ")"
